@@ -47,7 +47,7 @@ var leafSpecs = []leafSpec{
 	{'r', `@a  |	@c | @b`, nil},
 	{'r', `@a | @b | @a`, []SRule{Ru("nullable", "true")}},
 	{'o', ``, []SRule{Ru("additionalProperties", "true"), Ru("additionalProperties", "false"), Ru("additionalProperties", `"string"`), Ru("additionalProperties", `"@a"`), Ru("additionalProperties", `"any"`),
-		Ru("allOf", `"@a"`), Ru("allOf", `["@a", "@c"]`), Ru("nullable", "true"), Ru("type", `"object"`), Ru("or", `[{type: "object"}, {type: "string"}]`), Ru("or", `["uri", "object"]`), Ru("type", `"@a"`), Ru("type", `"any"`)}},
+		Ru("allOf", `"@a"`), Ru("allOf", `["@a", "@c"]`), Ru("allOf", `["@a"]`), Ru("nullable", "true"), Ru("type", `"object"`), Ru("or", `[{type: "object"}, {type: "string"}]`), Ru("or", `["uri", "object"]`), Ru("type", `"@a"`), Ru("type", `"any"`)}},
 	{'a', ``, []SRule{Ru("minItems", "0"), Ru("maxItems", "0"), Ru("minItems", "1"), Ru("maxItems", "3"), Ru("maxItems", big20), Ru("maxItems", maxU64), Ru("type", `"array"`), Ru("nullable", "true"), Ru("or", `["array", "@a"]`), Ru("type", `"any"`), Ru("type", `"@l"`), Ru("or", `["@l", "string"]`)}},
 	{'r', `@l`, []SRule{Ru("nullable", "true")}},
 	{'r', `@n | @l`, nil},
